@@ -250,8 +250,17 @@ def run_sequence(ops):
         for k, b in enumerate(before):
             if k != target and after[k] != b:
                 errs.append('step %d %s on molecule %s changed molecule %d' % (step, op[0], target, k))
-        if out != 'ok' and op[0] not in ('addorrep',) and after[:len(before)] != before:
+        # theorem error_no_change: a failing operation changes nothing (add_or_replace_interaction included:
+        # it can only fail in add_interaction, before the citations are touched)
+        if out != 'ok' and after[:len(before)] != before:
             errs.append('step %d %s failed with %s but changed the state' % (step, op[0], out))
+        # theorem merge_outcome: a merge fails only on an nrexcl mismatch, with ValueError
+        if op[0] == 'merge' and out != 'badindex':
+            a0, b0 = before[op[1]], before[op[2]]
+            eff = b0[4] if (a0[4] is None and not a0[0]) else a0[4]
+            want = 'ok' if eff == b0[4] else 'valueerror'
+            if out != want:
+                errs.append('step %d merge: outcome %s, expected %s' % (step, out, want))
         if op[0] == 'merge' and out == 'ok':
             i, j = op[1], op[2]
             a0, b0, a1 = before[i], before[j], after[i]
